@@ -16,9 +16,11 @@ import (
 	"io"
 	"net/http"
 	"net/http/httptest"
+	"net"
 	"sort"
 	"strconv"
 	"strings"
+	"sync"
 
 	"github.com/Query-farm/vgi-rpc-go/vgirpc"
 	"github.com/apache/arrow-go/v18/arrow"
@@ -166,9 +168,7 @@ func (s *C21Prod) Produce(_ context.Context, out *vgirpc.OutputCollector, _ *vgi
 		md[vgirpc.MetaStreamState] = "user-cursor"
 		md[vgirpc.MetaCallState] = "user-call"
 	}
-	if !(rows == 0 && md[vgirpc.MetaStreamState] != "") {
-		env.emitted = append(env.emitted, c21Emit{int64(rows), c21Payload(batch), md, false})
-	}
+	env.emitted = append(env.emitted, c21Emit{int64(rows), c21Payload(batch), md, false})
 	return out.EmitWithMetadata(batch, md)
 }
 
@@ -327,6 +327,140 @@ type c21Env struct {
 	turn           string
 	emitted        []c21Emit
 	raised         []c21Raise
+
+	// "net" family: the client runs over a real http.Transport against a real listener; faults are
+	// made at the connection level by the front handler and every request is recorded where the
+	// SERVER receives it (so retries made below the client by net/http are visible).
+	net       bool
+	netSrv    *httptest.Server
+	netTr     *http.Transport
+	mu        sync.Mutex
+	srvSeen   []c21Wire // requests as received by the server during the current call
+	netFaults []string  // connection-level fault for the i-th request the server receives in this call
+}
+
+// c21ReplayHeaders: request headers that make net/http treat a POST as idempotent and resend it
+// on its own when a reused connection dies.
+var c21ReplayHeaders = []string{"Idempotency-Key", "X-Idempotency-Key"}
+
+func c21ReqInfo(path string, body []byte) c21Wire {
+	w := c21Wire{kind: "unary"}
+	switch {
+	case strings.HasSuffix(path, "/init"):
+		w.kind = "init"
+	case strings.HasSuffix(path, "/exchange"):
+		w.kind = "cont"
+		func() {
+			defer func() { _ = recover() }()
+			rd, err := ipc.NewReader(bytes.NewReader(body))
+			if err != nil {
+				return
+			}
+			defer rd.Release()
+			if rd.Next() {
+				keys, vals := c21RecordMD(rd.RecordBatch())
+				for i := range keys {
+					switch keys[i] {
+					case vgirpc.MetaStreamState:
+						w.cursor = vals[i]
+					case vgirpc.MetaCallState:
+						w.call = vals[i]
+					case vgirpc.MetaCancel:
+						w.cancel = vals[i] == "1"
+					}
+				}
+			}
+		}()
+	}
+	return w
+}
+
+// netBegin resets the per-call server-side record and schedules the connection faults.
+func (e *c21Env) netBegin(faults []string) {
+	e.mu.Lock()
+	e.srvSeen, e.netFaults = nil, faults
+	e.mu.Unlock()
+}
+
+func (e *c21Env) netSeen() []c21Wire {
+	e.mu.Lock()
+	defer e.mu.Unlock()
+	return append([]c21Wire(nil), e.srvSeen...)
+}
+
+// front is the real listener's handler: record the request, then either hand it to the real
+// HttpServer or break the connection.
+func (e *c21Env) front(w http.ResponseWriter, r *http.Request) {
+	body, _ := io.ReadAll(r.Body)
+	info := c21ReqInfo(r.URL.Path, body)
+	for _, h := range c21ReplayHeaders {
+		if r.Header.Get(h) != "" {
+			info.fault = h // reused as "offending header" for the oracle
+		}
+	}
+	e.mu.Lock()
+	idx := len(e.srvSeen)
+	fault := "ok"
+	if idx < len(e.netFaults) {
+		fault = e.netFaults[idx]
+	}
+	info.abs = fault
+	e.srvSeen = append(e.srvSeen, info)
+	e.mu.Unlock()
+	r.Body = io.NopCloser(bytes.NewReader(body))
+	hijack := func() net.Conn {
+		conn, _, err := w.(http.Hijacker).Hijack()
+		if err != nil {
+			panic(err)
+		}
+		return conn
+	}
+	switch fault {
+	case "netdrop": // the request was received in full; no response byte is written
+		hijack().Close()
+	case "netreset":
+		conn := hijack()
+		if tc, ok := conn.(*net.TCPConn); ok {
+			tc.SetLinger(0)
+		}
+		conn.Close()
+	case "netdropafter": // the worker runs the turn, the answer is lost
+		rec := httptest.NewRecorder()
+		e.hs.ServeHTTP(rec, r)
+		hijack().Close()
+	case "nethalf": // the worker runs the turn, the answer breaks off in the middle of the body
+		rec := httptest.NewRecorder()
+		e.hs.ServeHTTP(rec, r)
+		data := rec.Body.Bytes()
+		conn := hijack()
+		fmt.Fprintf(conn, "HTTP/1.1 %d OK\r\n", rec.Code)
+		for k, vs := range rec.Header() {
+			for _, v := range vs {
+				fmt.Fprintf(conn, "%s: %s\r\n", k, v)
+			}
+		}
+		fmt.Fprintf(conn, "Content-Length: %d\r\n\r\n", len(data))
+		conn.Write(data[:len(data)/2])
+		conn.Close()
+	default:
+		e.hs.ServeHTTP(w, r)
+	}
+}
+
+func (e *c21Env) netStart() string {
+	e.netSrv = httptest.NewServer(http.HandlerFunc(e.front))
+	e.netTr = &http.Transport{MaxIdleConnsPerHost: 4}
+	return e.netSrv.URL
+}
+
+func (e *c21Env) netStop() {
+	if e.netTr != nil {
+		e.netTr.CloseIdleConnections()
+	}
+	if e.netSrv != nil {
+		e.netSrv.Close()
+	}
+	e.netSrv, e.netTr = nil, nil
 }
 
 func (e *c21Env) tokID(v string) string {
@@ -532,8 +666,59 @@ type c21RT struct {
 
 func (rt *c21RT) begin(faults []string) { rt.faults, rt.n, rt.wire = faults, 0, nil }
 
+// netRoundTrip observes what the real transport hands to the client (the model's responses).
+func (rt *c21RT) netRoundTrip(req *http.Request) (*http.Response, error) {
+	env := rt.env
+	var body []byte
+	if req.GetBody != nil {
+		if rc, err := req.GetBody(); err == nil {
+			body, _ = io.ReadAll(rc)
+			rc.Close()
+		}
+	}
+	w := c21ReqInfo(req.URL.Path, body)
+	w.fault, w.applied = "ok", true
+	if rt.n < len(rt.faults) {
+		w.fault = rt.faults[rt.n]
+	}
+	rt.n++
+	for _, h := range c21ReplayHeaders {
+		if req.Header.Get(h) != "" {
+			env.c.Oracle("replayable-post-header", fmt.Sprintf("the client sent header %s on a POST: net/http then resends the request on its own when a reused connection dies", h))
+		}
+	}
+	resp, err := env.netTr.RoundTrip(req)
+	if err != nil {
+		w.abs = "T"
+		rt.wire = append(rt.wire, w)
+		return nil, err
+	}
+	data, rerr := io.ReadAll(resp.Body)
+	resp.Body.Close()
+	r := &c21Resp{status: resp.StatusCode, header: resp.Header, body: data, clen: resp.ContentLength, readErr: -1}
+	if rerr != nil {
+		r.readErr = len(data)
+	}
+	w.abs, w.tokens, w.overCap, w.bad = env.abstract(r)
+	rt.wire = append(rt.wire, w)
+	var rd io.Reader = bytes.NewReader(data)
+	if rerr != nil {
+		rd = io.MultiReader(bytes.NewReader(data), c21ErrReader{})
+	}
+	resp.Body = io.NopCloser(rd)
+	return resp, nil
+}
+
 func (rt *c21RT) RoundTrip(req *http.Request) (*http.Response, error) {
 	env := rt.env
+	if env.net {
+		return rt.netRoundTrip(req)
+	}
+	for _, h := range c21ReplayHeaders {
+		if req.Header.Get(h) != "" {
+			env.c.Oracle("replayable-post-header", fmt.Sprintf("the client sent header %s on a POST: net/http then resends the request on its own when a reused connection dies", h))
+		}
+	}
 	var body []byte
 	if req.Body != nil {
 		body, _ = io.ReadAll(req.Body)
